@@ -66,12 +66,50 @@ def check(rep, c, cfg):
             for f in v["fields"]:
                 if "CallLimitTracker" in f["ty"] and a["path"] != TRACKER:
                     holders.append((a["path"], f["name"]))
+    # the increment in its functional spelling: a `&self` method of the tracker that answers the counter's next value,
+    # `Some((current + 1, limit))` (None when calls are not counted), stored back by `t.field = t.next()` - that one
+    # assignment, of that method's result on the same tracker, is the increment wherever it is written
+    func_incs = {}
+    for b in tracker_fns(c):
+        if b.get("body") is None or (b.get("inputs") and str(b["inputs"][0]).startswith("&mut")) or \
+                "Option<(usize, usize)>" not in str(b.get("output", "")):
+            continue
+        firsts = first_component_bindings(b)
+        comps = all_tuple_components(b)
+        leaves = [peel(v) for v in hirq.tail_leaves(b["body"])]
+        good, some = bool(leaves), False
+        for v in leaves:
+            if kind(v) == "Path" and str(v.get("path", "")).endswith("Option::None"):
+                continue
+            tup = peel(v["args"][0]) if kind(v) == "Call" and str(callee(v)).endswith("Option::Some") and v["args"] else None
+            if tup is not None and kind(tup) == "Tup" and len(tup["elems"]) == 2:
+                a, bb = peel(tup["elems"][0]), peel(tup["elems"][1])
+                if kind(a) == "Binary" and a["op"] == "+" and hirq.local_id(a["l"]) in firsts and hirq.lit_value(a["r"]) == 1 \
+                        and (hirq.local_id(a["l"]), hirq.local_id(bb)) in comps:
+                    some = True
+                    continue
+            good = False
+        if good and some:
+            func_incs[b["path"]] = b
+
+    def functional_increment(assign):
+        """assign is `<t>.field = <t>.next()` with next a functional increment of the tracker"""
+        if kind(assign) != "Assign":
+            return None
+        rhs = peel(assign["r"])
+        lhs = peel(assign["l"])
+        if kind(rhs) == "MethodCall" and rhs.get("path") in func_incs and kind(lhs) == "Field" and lhs["name"] == field \
+                and hirq.place(lhs["base"]) is not None and hirq.place(lhs["base"]) == hirq.place(rhs["recv"]):
+            return rhs["path"]
+        return None
     for (apath, fname) in holders:
         short = apath.split("::")[-1]
         for b in c.bodies:
             for (x, how, pn) in hirq.mutating_field_accesses(b["body"], fname, short):
                 if how.startswith("method:") and how[7:] in [f["path"] for f in tracker_fns(c)]:
                     continue  # the tracker's own methods are checked above
+                if how == "assign" and functional_increment(pn):
+                    continue  # `state.tracker.field = state.tracker.next()`: judged below as the increment
                 r.instance("holder:%s.%s<-%s" % (short, fname, b["path"]), where(x), how)
                 r.violation("holder:%s.%s<-%s" % (short, fname, b["path"]), where(x),
                             "%s.%s is overwritten/borrowed mutably (%s) outside the tracker's own methods: the "
@@ -87,6 +125,10 @@ def check(rep, c, cfg):
         fn = c.fn(p)
         r.instance("mut:" + p, where(ms[0][0]), "mutable access to the counter field (%s)" % ms[0][1])
         if fn.get("impl_self") != TRACKER:
+            fi = [functional_increment(pn) for (x, how, pn) in ms]
+            if all(fi) and len(set(fi)) == 1 and len(ms) == 1:
+                inc_fns.append(fi[0])
+                continue
             r.violation("mut:" + p, where(ms[0][0]), "the call counter is mutated outside impl CallLimitTracker")
             continue
         # all writes in this fn must be `<first tuple component> += 1`
